@@ -264,46 +264,42 @@ def findIdx? {α} (p : α → Bool) : List α → Option Nat
   | [] => none
   | x :: xs => if p x then some 0 else (findIdx? p xs).map (· + 1)
 
-def attrIndex (o : Obj) (name : String) (v : AVal) : R (Option Nat) :=
+/-- the `elif attribute_name == …` chain of the index look-up, as a table -/
+def indexers : List (String × (Obj → AVal → R (Option Nat))) :=
   let z (b : Bool) : R (Option Nat) := pure (if b then some 0 else none)
-  if name == "Application Specific Information" then
-    match v with
-    | .appInfo a b => pure (findIdx? (fun p => p.1 == a && p.2 == b) o.appInfo)
-    | _ => ierr "value has no application_namespace"
-  else if name == "Certificate Type" then
-    if o.otype == OT.certificate then (match v with | .enum a => z (o.subtype == some a) | _ => ierr "no .value")
-    else ierr "no attribute certificate_type"
-  else if name == "Cryptographic Algorithm" then
-    if o.isKey then (match v with | .enum a => z (o.alg == some a) | _ => ierr "no .value") else ierr "no attribute"
-  else if name == "Cryptographic Length" then
-    if o.isKey then (match v with | .int a => z (o.len.map Int.ofNat == some a) | _ => ierr "no .value") else ierr "no attribute"
-  else if name == "Cryptographic Usage Mask" then
-    match o.mask, v with
-    | some m, .int a => z ((m : Int) == a)
-    | none, _ => ierr "no attribute"
-    | _, _ => ierr "no .value"
-  else if name == "Initial Date" then
-    match v with | .date a => z ((o.initialDate : Int) == a) | _ => ierr "no .value"
-  else if name == "Name" then
-    match v with
-    | .name s _ => pure (findIdx? (· == s) o.names)
-    | _ => ierr "no name_value"
-  else if name == "Object Group" then
-    match v with | .text s => pure (findIdx? (· == s) o.groups) | _ => ierr "no .value"
-  else if name == "Object Type" then
-    match v with | .enum a => z (o.otype == a) | _ => ierr "no .value"
-  else if name == "Operation Policy Name" then
-    match v with | .text s => z (o.policy == s) | _ => ierr "no .value"
-  else if name == "Sensitive" then
-    match v with | .bool b => z (o.sensitive == b) | _ => ierr "no .value"
-  else if name == "State" then
-    match o.state, v with
-    | some s, .enum a => z (s == a)
-    | none, _ => ierr "no attribute state"
-    | _, _ => ierr "no .value"
-  else if name == "Unique Identifier" then
-    match v with | .text s => z (toString o.uid == s) | _ => ierr "no .value"
-  else pure none
+  [("Application Specific Information", fun o v => match v with
+      | .appInfo a b => pure (findIdx? (fun p => p.1 == a && p.2 == b) o.appInfo)
+      | _ => ierr "value has no application_namespace"),
+   ("Certificate Type", fun o v =>
+      if o.otype == OT.certificate then (match v with | .enum a => z (o.subtype == some a) | _ => ierr "no .value")
+      else ierr "no attribute certificate_type"),
+   ("Cryptographic Algorithm", fun o v =>
+      if o.isKey then (match v with | .enum a => z (o.alg == some a) | _ => ierr "no .value") else ierr "no attribute"),
+   ("Cryptographic Length", fun o v =>
+      if o.isKey then (match v with | .int a => z (o.len.map Int.ofNat == some a) | _ => ierr "no .value")
+      else ierr "no attribute"),
+   ("Cryptographic Usage Mask", fun o v => match o.mask, v with
+      | some m, .int a => z ((m : Int) == a)
+      | none, _ => ierr "no attribute"
+      | _, _ => ierr "no .value"),
+   ("Initial Date", fun o v => match v with | .date a => z ((o.initialDate : Int) == a) | _ => ierr "no .value"),
+   ("Name", fun o v => match v with
+      | .name s _ => pure (findIdx? (· == s) o.names)
+      | _ => ierr "no name_value"),
+   ("Object Group", fun o v => match v with | .text s => pure (findIdx? (· == s) o.groups) | _ => ierr "no .value"),
+   ("Object Type", fun o v => match v with | .enum a => z (o.otype == a) | _ => ierr "no .value"),
+   ("Operation Policy Name", fun o v => match v with | .text s => z (o.policy == s) | _ => ierr "no .value"),
+   ("Sensitive", fun o v => match v with | .bool b => z (o.sensitive == b) | _ => ierr "no .value"),
+   ("State", fun o v => match o.state, v with
+      | some s, .enum a => z (s == a)
+      | none, _ => ierr "no attribute state"
+      | _, _ => ierr "no .value"),
+   ("Unique Identifier", fun o v => match v with | .text s => z (toString o.uid == s) | _ => ierr "no .value")]
+
+def attrIndex (o : Obj) (name : String) (v : AVal) : R (Option Nat) :=
+  match indexers.lookup name with
+  | some f => f o v
+  | none => pure none
 
 /-! ### `_set_attribute_on_managed_object_by_index` -/
 
